@@ -40,6 +40,16 @@ MUTANTS = [
     ("C16", "cuqi/solver/_solver.py", "return np.multiply(np.sign(x), np.maximum(np.abs(x)-gamma, 0))", "return np.multiply(np.sign(x), np.abs(x)-gamma)"),
     ("C16", "cuqi/solver/_solver.py", "        super().__init__(nfunc,x0,ngradfunc,method,**kwargs)", "        super().__init__(nfunc,x0,gradfunc,method,**kwargs)"),
     ("C16", "cuqi/solver/_solver.py", "        upper = np.ones_like(x)", "        upper = np.ones_like(x)*2"),
+    # C04 / C05
+    ("C04", "cuqi/distribution/_gaussian.py", "        logdet = np.sum(-np.log(prec))\n        rank = dim\n        if sparse_flag:\n            # cov = spa.diags(1/prec", "        logdet = np.sum(np.log(prec))\n        rank = dim\n        if sparse_flag:\n            # cov = spa.diags(1/prec"),
+    ("C04", "cuqi/distribution/_gamma.py", "return np.sum(sps.gamma.logpdf(x, a=self.shape, loc=0, scale=self.scale))", "return np.sum(sps.gamma.logpdf(x, a=self.shape, loc=0, scale=self.rate))"),
+    ("C04", "cuqi/distribution/_normal.py", "return np.prod(0.5*(1 + erf((x-self.mean)/(self.std*np.sqrt(2)))))", "return np.sum(0.5*(1 + erf((x-self.mean)/(self.std*np.sqrt(2)))))"),
+    ("C04", "cuqi/distribution/_laplace.py", "return self.dim*(np.log(0.5/self.scale))", "return (np.log(0.5/self.scale))"),
+    ("C05", "cuqi/distribution/_gaussian.py", "perturbation = splinalg.solve_triangular(self.sqrtprec, e, lower=True)", "perturbation = splinalg.solve_triangular(self.sqrtprec, e)"),
+    ("C05", "cuqi/distribution/_gmrf.py", "s = self.mean + (1/np.sqrt(self.prec))*splinalg.spsolve(self._chol.T, xi)", "s = self.mean + (1/self.prec)*splinalg.spsolve(self._chol.T, xi)"),
+    ("C05", "cuqi/distribution/_normal.py", "            s =  rng.normal(self.mean, self.std, (N,self.dim)).T", "            s =  np.random.normal(self.mean, self.std, (N,self.dim)).T"),
+    ("C05", "cuqi/distribution/_gamma.py", "return rng.gamma(shape=self.shape, scale=self.scale, size=(N, self.dim)).T", "return rng.gamma(shape=self.shape, scale=self.rate, size=(N, self.dim)).T"),
+    ("C05", "cuqi/distribution/_lognormal.py", "return np.exp(self._normal._sample(N,rng))", "return np.exp(self._normal._sample(N))"),
     # C12
     ("C12", "cuqi/model/_model.py", "        if isinstance(x, CUQIarray) and  x.geometry == geometry:\n            x = x.funvals", "        if isinstance(x, CUQIarray) and  x.geometry == geometry:\n            x = x"),
     ("C12", "cuqi/model/_model.py", "        return self._2par(out, func_range_geometry, \n", "        return self._2par(out, func_domain_geometry, \n"),
